@@ -258,6 +258,31 @@ CHECKS["C09"] = dict(
     technique="Lean 4 induction/refinement theorems over a cycle-accounting model with the allocator as parameter (counterexample theorem for the known finding) + regenerated source facts (thresholds, statement skeletons) + closed-loop differential correspondence with the real watcher/allocator/schedulers over fake miners under synctest + trace monitor on delivered work",
     design="5/C09", engine="contract")
 
+# what later rounds added to the checks (appended to the texts above)
+EXTRA = {
+    "C01": "Which announcement's difficulty / extranonce a share is judged by (\"in force when that job was announced\") is checked too: "
+           "the validator harness of C19 (every announcement with its own difficulty, the verdict names the job it used) runs under this check and is judged by Spec/C19.",
+    "C02": "Proof of work is real in the sessions: the fake miner mines shares (difficulties of 1..3 units of 2^-16) against what the pools announced, every submit "
+           "carries the share's difficulty against every job data it could be hashed with (measured by the harness's own SHA-256), and model and monitor decide from that table.",
+    "C03": "Sessions run with really mined shares (see C02).",
+    "C04": "Ledger amounts are non-zero: accepted shares are really mined at fractional pool difficulties (see C02), so miner, worker-name, destination and task credit are compared in value, not only in count.",
+    "C05": "Besides single hostile lines: every sequence of up to four well-formed requests (configure / subscribe / authorize / submit, a subscribe answered late) in arbitrary protocol order, next to a well-behaved connection.",
+    "C06": "What virtual time cannot exhibit runs against the wall clock: a destination change still in its handshake when the reconnect wait of a failed pool ends (four timings in parallel, judged by monitorRT; a complaint counts only if it repeats).",
+    "C07": "A second, finer model (Model/SchedSlow.lean: the goroutine's position explicit, newTaskSignal as a one-token channel) covers destination changes that take time: add / remove / share / time arrive "
+           "while the scheduler is inside SetDest. Theorems for every history of events and releases: every reachable state is well-formed, a SetDest is entered only for a live queued task, a removed contract is never "
+           "pointed at again (also when the removal arrives mid-change), the proxy's answer installs the destination and callback that were asked for. The real Scheduler runs over a proxy whose SetDest blocks until released and is compared op by op.",
+    "C08": "Terms updates (purchaseInfoUpdated; new terms of a running contract wait for its close), events without a handler and node failures (a refused eth_call under every event) are ops of model, driver and harness; "
+           "history-level theorems (history_inv, history_allocates_only_live over every event list, restart point and chain answer), repurchase_under_new_terms, terms_update_while_running, rpc_failure_is_harmless; the monitor also requires the speed and length of the purchase.",
+    "C09": "The monitor also requires that the watcher's account lists every connected miner that is directed to the contract's destination (otherwise it can neither be shed nor released); a seam pauses the scheduler inside the end notification of partial jobs, "
+           "and a generator makes the whole miner leave so that the watcher wants whole miners at the instant a partial job ends.",
+    "C13": "Tasks are told of the disconnect only once the miner no longer counts as connected (probe inside the notification).",
+    "C16": "The assumption that a buyer / validator controller returns once its purchase ended is checked against the real ControllerBuyer (C10's harness runs under this check).",
+    "C17": "Several miners, one after the other, through one real TCP handler (one configured destination): the name and password the pool is presented with vs Model/Cred on the configured destination.",
+    "C18": "Bad payloads go through the real seller controller (C08's world) and are compared with the fail-closed model; every GET route of the real HTTP engine (built around a configuration loaded from flags / environment with marker secrets) is requested and searched for the markers.",
+}
+for _pid, _add in EXTRA.items():
+    CHECKS[_pid]["text"] += " " + _add
+
 NOT_YET = {}
 
 ALL = ["C%02d" % i for i in range(1, 21)]
